@@ -250,6 +250,14 @@ func ruleSortPipeline(p *Prog, r *Report) {
 				continue
 			}
 			_, cargs, isNV := methodCall(ex.Tuple, "NewVersion")
+			if !isNV {
+				// through a wrapper of the CLI package that hands the constructor's result on
+				if wc, ok := ex.Tuple.(*ssa.Call); ok {
+					if m, _, sp, isW := parseWrapper(wc.Call.StaticCallee()); isW && m == "NewVersion" && sp < len(wc.Call.Args) {
+						cargs, isNV = []ssa.Value{wc.Call.Args[sp]}, true
+					}
+				}
+			}
 			if !isNV || len(cargs) != 1 {
 				okIn, why = false, "the appended value is not the result of NewVersion"
 				continue
